@@ -58,7 +58,7 @@ Theorem C14_prep_rollback : forall sg fs0 refs ds s0, init_state sg fs0 refs ds 
       /\ bound s = bound s1.
 Proof. exact prep_rollback. Qed.
 
-(* a history whose keywords are all documented ones (n, ftype, zero_phase / type, bp) never raises *)
+(* a history whose keywords are all documented ones (n, ftype, zero_phase / type, bp, overwrite_data) never raises *)
 Theorem C14_prep_kw_total : forall sg fs0 refs ds s0, init_state sg fs0 refs ds = POk s0 ->
   forall ops, Forall op_documented ops -> exists s, run false sg s0 ops = POk s.
 Proof. exact run_total. Qed.
